@@ -4,6 +4,9 @@
 #include "spec.h"
 #include "baseCells.h"
 #include "memmodel.h"
+#ifdef VP_FIXED_ALLOC
+#include "allocshim.h"
+#endif
 H3Index in_c[8]; H3Index in_p, in_x; int in_off, in_r; int64_t in_cap;
 static H3Index spec_parent(H3Index h, int pr) {
     uint64_t x = h & ~(UINT64_C(15) << 52);
@@ -33,6 +36,10 @@ void harness(void) {
     VP_WITNESS("small");
     __CPROVER_assert(back[N] == UINT64_C(0x5a5a5a5a5a5a5a5a), "uncompactCells stays within its capacity");
 #elif defined(FAMILY)
+#ifdef VP_FIXED_ALLOC
+    vp_alloc_init();
+    for (int i = 0; i < VP_MAXALLOC; i++) __CPROVER_assume(!in_fail[i]);
+#endif
     // RES >= 1: the children of a symbolic parent of resolution RES-1, presented rotated by a symbolic offset
     H3Index P = in_p = mkcell(RES - 1, "in_p");
     int off = in_off = vp_int("in_off");
